@@ -182,3 +182,55 @@ _STRICT_SGR = re.compile('\x1b\\[[0-9;]*m')
 
 def strip_sgr_strict(s):
     return _STRICT_SGR.sub('', s)
+
+
+# --------------------------------------------------------------------------
+# systematic workloads shared by several checks
+# --------------------------------------------------------------------------
+GROUP_CODES = {
+    # group: (apply codes, clear code)
+    'boldness': (['1', '2'], '22'), 'italics': (['3'], '23'), 'underline': (['4', '21'], '24'),
+    'blinking': (['5', '6'], '25'), 'swap': (['7'], '27'), 'visibility': (['8'], '28'), 'crossed_out': (['9'], '29'),
+    'font': (['11', '20'], '10'), 'spacing': (['26'], '50'), 'boxing': (['51', '52'], '54'), 'overline': (['53'], '55'),
+    'fg': (['31', '38;5;214', '38;2;1;2;3', '97'], '39'), 'bg': (['41', '48;5;9', '104'], '49'),
+    'ul_color': (['58;5;9', '58;2;1;2;3'], '59'),
+}
+
+
+def transition_values(L, rng, shard=0, nshards=1, per_group=40):
+    """values whose adjacent characters bridge every kind of style transition of every effect group
+    (set / changed / cleared / clear-code-as-setting), with and without a setting of another group
+    running underneath or ending at the same index.  Yields AnsiString objects."""
+    groups = sorted(GROUP_CODES)
+    k = 0
+    for g in groups:
+        ap, cl = GROUP_CODES[g]
+        states = [None] + ap[:2] + [cl]
+        others = [x for x in groups if x != g]
+        for a in states:
+            for b in states:
+                for c in states:
+                    if a is None and b is None and c is None:
+                        continue
+                    k += 1
+                    if k % nshards != shard:
+                        continue
+                    for under, unparsable in ((None, False), ('across', False), ('ends-in-middle', False),
+                                              ('across', True), (None, True)):
+                        s = L.AnsiString('abcdef')
+                        if unparsable:
+                            # an unknown verbatim code makes the value non-optimizable: the renderer takes its
+                            # reset-and-re-emit path, and simplify() starts from that rendering
+                            s.apply_formatting('[99', 0, 6)
+                        if under:
+                            og = rng.choice(others)
+                            oc = rng.choice(GROUP_CODES[og][0])
+                            if under == 'across':
+                                s.apply_formatting('[' + oc, 0, 6)
+                            else:
+                                s.apply_formatting('[' + oc, 1, 4)
+                        for (st, en), code in zip(((0, 2), (2, 4), (4, 6)), (a, b, c)):
+                            if code is not None:
+                                # as a parsed code (int string) so that the value stays optimizable
+                                s.apply_formatting(code, st, en)
+                        yield s
